@@ -559,6 +559,7 @@ def make_middleware(world: "World", idx: int, spec: dict, parent: Any = None) ->
                     world.fired("hook_cancelled")
                     raise asyncio.CancelledError()     # e.g. a transport dropped the future the hook was awaiting
                 world.fired("hook_raise")
+                world.rec("hook_failed", DELIVERY.get(), hook=hook, mw=idx)
                 raise SimFault(f"hook {hook} of mw{idx} failed")
 
     def replaced(message: Any) -> Any:
@@ -696,6 +697,8 @@ class World:
     def k_of(self, task_id: str, task_name: str = "") -> Any:
         if task_id.startswith("m"):
             s = task_id[1:]
+            if self.config.get("rekey"):
+                s = s.rstrip("r")          # ids rewritten by the _Rekey middleware carry a trailing "r"
             try:
                 return int(s)
             except ValueError:
@@ -1147,6 +1150,14 @@ def make_endpoint(world: World, node: str, worker: Optional[int] = None, gen: in
         mws.append(_LabelAdder(world))
     if worker is None and cfg.get("client_stamper"):
         mws.append(_Stamper(world, cfg["client_stamper"].get("us", 0)))
+    if worker is not None and cfg.get("rekey"):
+        mws.append(_Rekey(world))
+    pb = cfg.get("mw_prebound")
+    if pb is not None and mws:
+        # a middleware that was handed its broker before it is registered (set_broker is public; a middleware may take the broker in
+        # its constructor): it is registered like any other
+        mws[pb % len(mws)].set_broker(br)
+        world.fired("middleware_bound_before_registration")
     split = cfg.get("mw_split")
     if split and len(mws) >= 2:
         # the stack is built in two steps: with_middlewares / add_middlewares in either combination (both append)
@@ -1159,6 +1170,21 @@ def make_endpoint(world: World, node: str, worker: Optional[int] = None, gen: in
         br.add_middlewares(*mws)
     register_tasks(world, br, worker, late=False, defer_late=defer_late)
     return br
+
+
+class _Rekey(TaskiqMiddleware):
+    """A worker-side pre_execute middleware that gives the message another task id (a delivery id mapped to a canonical job id):
+    the execution, its Context and the stored result all belong to the id the executed message carries."""
+
+    def __init__(self, world: "World") -> None:
+        super().__init__()
+        self.world = world
+
+    def pre_execute(self, message: Any) -> Any:
+        if message.task_id.endswith("r"):
+            return message
+        self.world.fired("task_id_rewritten_by_middleware")
+        return message.model_copy(update={"task_id": message.task_id + "r"})
 
 
 class _Stamper(TaskiqMiddleware):
